@@ -2,9 +2,28 @@ package main
 
 import (
 	"go/ast"
+	"go/types"
 	"sort"
 	"strings"
 )
+
+// isBoolLocal: id names a local boolean variable of f (not a parameter).
+func isBoolLocal(f *Func, id *ast.Ident) bool {
+	obj, _ := f.Info().Uses[id].(*types.Var)
+	if obj == nil || obj.IsField() {
+		return false
+	}
+	b, ok := obj.Type().Underlying().(*types.Basic)
+	if !ok || b.Kind() != types.Bool {
+		return false
+	}
+	for i := 0; paramObj(f, i) != nil; i++ {
+		if paramObj(f, i) == obj {
+			return false
+		}
+	}
+	return true
+}
 
 func init() {
 	register(&Property{ID: "C13", Run: runC13,
@@ -282,7 +301,21 @@ func runC13(c *RuleCtx) {
 					c.Check(ok, "R13.5", f.Name, "entry of a replacing handler is not removed", d.Call, why, why)
 				}
 			}
-			sent := AtomBool("new-stream event was sent", func(v *V) bool { return v.Kind == "var" && v.Name == "sentNewStream" })
+			sent := AtomBool("new-stream event was sent", func(v *V) bool {
+				// the handler's local flag that is set (to the constant true) once the new-stream event went out
+				if v.Kind != "var" || v.Obj == nil {
+					return false
+				}
+				if b, ok := v.Obj.Type().Underlying().(*types.Basic); !ok || b.Kind() != types.Bool {
+					return false
+				}
+				for _, d := range p.R(f).Defs(v.Obj) {
+					if d.rhs != nil && p.R(f).Val(d.rhs).IsConst("true") {
+						return true
+					}
+				}
+				return false
+			})
 			isSend := func(n ast.Node) bool {
 				s, ok := n.(*ast.SendStmt)
 				if !ok || !p.R(deferred).Val(s.Chan).IsField("PubSub.incoming") {
@@ -318,7 +351,7 @@ func runC13(c *RuleCtx) {
 			if !ok || len(as.Lhs) != 1 {
 				return true
 			}
-			if id, ok := as.Lhs[0].(*ast.Ident); ok && id.Name == "sentNewStream" && as.Tok.String() == "=" {
+			if id, ok := as.Lhs[0].(*ast.Ident); ok && as.Tok.String() == "=" && len(as.Rhs) == 1 && isBoolLocal(f, id) && p.R(f).Val(as.Rhs[0]).IsConst("true") {
 				n++
 				cc, _ := p.Enclosing(as, func(n ast.Node) bool { _, ok := n.(*ast.CommClause); return ok }, true).(*ast.CommClause)
 				okc := false
